@@ -29,7 +29,7 @@ static std::vector<Op> parse_ops(const std::string& s, int nm) {
                 else if (f.size() > 1) for (auto& q : hc::split(f[1], ',')) if (valid(q)) op.quads.push_back(q);
                 if (!op.all && op.quads.empty()) continue;
                 break;
-            case 'C':
+            case 'C': case 'X':
                 op.split = !(f.size() > 1 && f[1] == "n");
                 if (f.size() > 2) { op.freqs = f[2]; for (size_t i = 3; i < f.size(); i++) op.freqs += ":" + f[i]; }
                 break;
@@ -54,7 +54,7 @@ static std::string ops_str(const std::vector<Op>& ops) {
         if (!s.empty()) s += '|';
         s += op.kind;
         if (op.kind == 'F' || op.kind == 'P') { s += ':'; if (op.all) s += '*'; else for (size_t i = 0; i < op.quads.size(); i++) { if (i) s += ','; s += op.quads[i]; } }
-        else if (op.kind == 'C') { s += op.split ? ":s" : ":n"; if (!op.freqs.empty()) s += ":" + op.freqs; }
+        else if (op.kind == 'C' || op.kind == 'X') { s += op.split ? ":s" : ":n"; if (!op.freqs.empty()) s += ":" + op.freqs; }
         else { s += ':' + op.quads[0]; if (op.kind == 'E' || op.kind == 'R') s += ':' + std::to_string(op.triple); }
     }
     return s;
@@ -71,12 +71,12 @@ static std::vector<std::string> orbit(const std::string& q) {
 }
 static std::string canon(const std::string& q) { return orbit(q)[0]; }
 
-enum St { ABSENT = 0, LISTED = 1, PREPARED = 2, COMPUTED = 3 };
+enum St { ABSENT = 0, LISTED = 1, PREPARED = 2, COMPUTED = 3, CLEARED = 4 };  // CLEARED: computed with clearTerms=true - marked computed, unevaluable by design until refilled
 struct StatusModel {
     std::map<std::string, int> orb; // canonical quadruple -> state
     int nm;
     int get(const std::string& q) const { auto it = orb.find(canon(q)); return it == orb.end() ? ABSENT : it->second; }
-    void lift(const std::string& q, int st) { int& s = orb[canon(q)]; if (s < st) s = st; }
+    void lift(const std::string& q, int st) { int& s = orb[canon(q)]; if (s < st) s = st; }   // CLEARED is maximal: later prepare/compute calls return early and change nothing
     void fill(const Op& op, int st) {
         orb.clear();
         if (op.all) { for (int a = 0; a < nm; a++) for (int b = 0; b < nm; b++) for (int c = 0; c < nm; c++) for (int d = 0; d < nm; d++) { std::string q; q += '0' + a; q += '0' + b; q += '0' + c; q += '0' + d; lift(q, st); } }
@@ -151,8 +151,15 @@ static void run_history(const RefKey& k, const std::vector<Op>& ops, RankReport&
                 case 'C': {
                     if (!model.all_prepared()) { rep.skipped++; break; } // documented order: compute needs prepared elements
                     Chi.computeAll(false, models::freqs_from(op.freqs, k.beta), comm, op.split);
-                    for (auto& kv : model.orb) if (kv.second >= PREPARED) kv.second = COMPUTED;
+                    for (auto& kv : model.orb) if (kv.second == PREPARED) kv.second = COMPUTED;
                     nbulk++; rep.nontrivial = true;
+                    break; }
+                case 'X': {
+                    // bulk computation that clears the terms: the elements end up marked computed but are unevaluable by design
+                    if (!model.all_prepared()) { rep.skipped++; break; }
+                    Chi.computeAll(true, models::freqs_from(op.freqs, k.beta), comm, op.split);
+                    for (auto& kv : model.orb) if (kv.second == PREPARED) kv.second = CLEARED;
+                    nbulk++;
                     break; }
                 case 'L': { if (!Chi.isInContainer(quad(op.quads[0]))) rep.created_on_demand++; Chi(quad(op.quads[0])); model.lift(op.quads[0], LISTED); break; }
                 case 'p': { if (!Chi.isInContainer(quad(op.quads[0]))) rep.created_on_demand++; static_cast<TwoParticleGF&>(Chi(quad(op.quads[0]))).prepare(); model.lift(op.quads[0], PREPARED); break; }
@@ -163,6 +170,7 @@ static void run_history(const RefKey& k, const std::vector<Op>& ops, RankReport&
                     break; }
                 case 'R': {
                     // "the element obtained on demand": keep the reference returned by the lookup and do everything through it
+                    if (model.get(op.quads[0]) == CLEARED) { rep.skipped++; break; } // purged on request: unevaluable by design
                     if (!Chi.isInContainer(quad(op.quads[0]))) rep.created_on_demand++;
                     ElementWithPermFreq<TwoParticleGF>& e = Chi(quad(op.quads[0]));
                     static_cast<TwoParticleGF&>(e).prepare();
@@ -221,6 +229,7 @@ static void run_history(const RefKey& k, const std::vector<Op>& ops, RankReport&
             TwoParticleGF& g = *kv.second.pElement;
             if (g.getStatus() != TwoParticleGF::Computed) continue;
             std::string qs = quad_str(kv.first);
+            if (model.get(qs) == CLEARED) continue;   // terms purged on request: "computed" but unevaluable by design
             auto rv = ref.vals.find(qs);
             try {
                 int ti = (int)(oi * 5 + 1) % NTRIPLES;
@@ -264,7 +273,7 @@ static std::string gen_ops(hc::Rng& r, int nm) {
         if (!have && x < 60) x = r.below(33);
         if (x < 25) { op = "P:" + ((nm == 2 && r.pct(10)) ? std::string("*") : pickset()); have = true; }
         else if (x < 33) { op = "F:" + pickset(); have = true; }
-        else if (x < 58) { op = std::string("C:") + (r.pct(65) ? "s" : "n"); if (r.pct(50)) op += ":" + models::rand_freqs(r, r.range(1, 3)); }
+        else if (x < 58) { op = std::string(r.pct(12) ? "X:" : "C:") + (r.pct(65) ? "s" : "n"); if (r.pct(50)) op += ":" + models::rand_freqs(r, r.range(1, 3)); }
         else if (x < 66) op = "L:" + r.pick(pool);
         else if (x < 76) op = "p:" + r.pick(pool);
         else if (x < 86) op = "c:" + r.pick(pool);
